@@ -322,6 +322,16 @@ class Sender:
 
         return None
 
+    def _error_transaction(self, exc):
+        # The partitions still waiting for AddPartitionsToTxn will not become
+        # part of the failed transaction, so the batches queued for them must
+        # not reach the partition leaders once the pending set is cleared.
+        txn_manager = self._txn_manager
+        self._message_accumulator.fail_partitions(
+            list(txn_manager.partitions_to_add()), exc
+        )
+        txn_manager.error_transaction(exc)
+
     async def _do_add_partitions_to_txn(self, tps):
         # First assert we have a valid coordinator to send the request to
         node_id = await self._find_coordinator(
@@ -346,7 +356,7 @@ class Sender:
         try:
             node_id = await self._find_coordinator(CoordinationType.GROUP, group_id)
         except GroupAuthorizationFailedError as exc:
-            self._txn_manager.error_transaction(exc)
+            self._error_transaction(exc)
             return
         log.debug(
             "Sending offset-commit request with %s for group %s to %s",
@@ -605,7 +615,7 @@ class AddOffsetsToTxnHandler(BaseHandler):
         elif error_type is TransactionalIdAuthorizationFailed:
             raise error_type(txn_manager.transactional_id)
         elif error_type is GroupAuthorizationFailedError:
-            txn_manager.error_transaction(error_type(self._group_id))
+            self._sender._error_transaction(error_type(self._group_id))
             return None
         else:
             log.error(
@@ -684,7 +694,7 @@ class TxnOffsetCommitHandler(BaseHandler):
                     raise error_type(txn_manager.transactional_id)
                 elif error_type is GroupAuthorizationFailedError:
                     exc = error_type(self._group_id)
-                    txn_manager.error_transaction(exc)
+                    self._sender._error_transaction(exc)
                     return None
                 else:
                     log.error(
